@@ -355,7 +355,7 @@ def w_rec(rep, ex: Explorer, be: Backend):
         V = ("mcs", sides["v"].cid)
         Fm = ("mcs", sides["f"].cid)
         # ---- decisions of the path
-        S = K0 = X = None
+        S = K0 = X = E = None
         loop_ev = None
         for key, val in p.decisions:
             if key[0] in ("forall", "exists", "not") or (key[0] == "subset"):
@@ -366,6 +366,8 @@ def w_rec(rep, ex: Explorer, be: Backend):
                 X = val
             elif key[0] in ("partfalse", "mcs-timeout"):
                 continue
+            elif key[0] == "empty" and isinstance(key[1], tuple) and key[1][:2] == ("setop", "&") and set(key[1][2:]) == {V, Fm}:
+                E = val  # "are there ties at all", asked in front of the tie loop
             else:
                 raise AnalysisError(f"{site}: outcome depends on {key!r}")
         if S is None:
@@ -387,6 +389,14 @@ def w_rec(rep, ex: Explorer, be: Backend):
         # ---- tie loop
         loops = [ev for ev, Q in iter_events(p.events) if ev.kind == "loop" and not Q and ev.data.get("exits")]
         tie = [ev for ev, Q in iter_events(p.events) if ev.kind == "loop" and not Q and ev.fam[0] == "members" and isinstance(ev.fam[1], tuple) and ev.fam[1][:2] == ("setop", "&")]
+        if E is True:
+            rep.check(out is True, "W.decision", site, "no ties", "no tie fails ⇒ True", extracted=str(out), required="True", function=site)
+            continue
+        if E is False and not tie and K0 is not None and _k_is_zero(K0) is True:
+            recs0 = [ev for ev, Q in iter_events(p.events) if ev.kind == "recurse"]
+            rep.check(out is False and not recs0, "W.decision", site, "tie at layer 0", "a tie at the lowest layer ⇒ False (no recursion below layer 0)",
+                      extracted=f"{out}, {len(recs0)} recursive call(s)", required="False, none", function=site)
+            continue
         if not tie:
             rep.violation("W.decision", site, "tie family", "ties are the sets that are minimal on both sides (V∩F)", extracted="no loop over V∩F", required="loop over V∩F", function=site)
             continue
